@@ -14,10 +14,10 @@ coq-makefile:
 	  if ! cmp -s _CoqProject.new _CoqProject || [ ! -f Makefile.coq ]; then mv _CoqProject.new _CoqProject; coq_makefile -f _CoqProject -o Makefile.coq; else rm _CoqProject.new; fi
 
 coq: coq-makefile
-	cd coq && timeout 7200 $(MAKE) -f Makefile.coq -j16
+	-cd coq && timeout 7200 $(MAKE) -k -f Makefile.coq -j16
 
 ocaml:
-	$(MAKE) -C tools/ocaml all
+	-$(MAKE) -k -C tools/ocaml all
 
 simmpi:
 	@if [ -f tools/simmpi/Makefile ]; then $(MAKE) -C tools/simmpi; fi
